@@ -49,24 +49,140 @@ def splitDev (dev : String) : Option (String × String) :=
   | a :: b :: _ => some (a, b)
   | _ => none
 
+/-- one iteration of the loop of `_load_rounding_parameters` over `(function_name, spec)` -/
+def roundingStep (copied : List String) (date : Int) (out : List (Key × Y)) (kv : Key × Y) :
+    Except Err (List (Key × Y)) :=
+  match latest (policyDates kv.2) date with
+  | none => pure out
+  | some l => do
+    let pol ← sub kv.2 (.d l)
+    let kept := match pol with
+      | .dict pkvs => pkvs.filter fun (k, _) => match k with
+        | .s name => copied.contains name
+        | _ => false
+      | _ => []
+    pure (kvSet out kv.1 (.dict kept))
+
 /-- `_load_rounding_parameters(date, rounding_spec)`; `copied` is the list
 `rounding_parameters` of the source. -/
 def loadRounding (copied : List String) (date : Int) (spec : Y) : Except Err Y :=
   match spec with
   | .dict kvs => do
-    let out ← kvs.foldlM (fun (out : List (Key × Y)) (fn, specFn) =>
-      match latest (policyDates specFn) date with
-      | none => pure out
-      | some l => do
-        let pol ← sub specFn (.d l)
-        let kept := match pol with
-          | .dict pkvs => pkvs.filter fun (k, _) => match k with
-            | .s name => copied.contains name
-            | _ => false
-          | _ => []
-        pure (kvSet out fn (.dict kept))) []
+    let out ← kvs.foldlM (roundingStep copied date) []
     pure (.dict out)
   | _ => .error .typeError
+
+/-! ### `_load_parameter_group_from_yaml`
+
+The body of the Python function is split into named pieces; every piece receives the
+recursive call as an argument `look date group param`, which stands for
+`_load_parameter_group_from_yaml(date, group, parameters=[param])[param]` (with `none` for the
+`if param in tmp_parameters` tests). -/
+
+/-- the recursive call restricted to one parameter, and the lookup of that parameter -/
+abbrev Look := Int → String → String → Except Err (Option Y)
+
+/-- no entry is in force yet (`latest = none`): only a cross-file `deviation_from` of the
+earliest entry yields a value -/
+def futureStep (look : Look) (p : Y) (date : Int) (out : List (Key × Y)) (pk : Key) :
+    Except Err (List (Key × Y)) :=
+  match minOf (policyDates p) with
+  | none => throw Err.valueError
+  | some e => do
+    let future ← sub p (.d e)
+    match future.get? (.s "deviation_from") with
+    | some (.str dev) =>
+      match splitDev dev with
+      | some (g2, p2) => do
+        match ← look date g2 p2 with
+        | some v => pure (kvSet out pk v)
+        | none => pure out
+      | none => pure out
+    | some _ => throw Err.typeError
+    | none => pure out
+
+/-- the base value of a `deviation_from` entry -/
+def devBase (look : Look) (base0 devY : Y) (l date : Int) (group param : String) : Except Err Y :=
+  match devY with
+  | .str dev =>
+    if dev = "previous" then do
+      match ← look (l - 1) group param with | some v => pure v | none => throw Err.keyError
+    else match splitDev dev with
+      | some (g2, p2) => do
+        match ← look date g2 p2 with | some v => pure v | none => throw Err.keyError
+      | none => pure base0
+  | _ => throw Err.typeError
+
+/-- the value of parameter `p` given the entry `pol` (dated `l`) in force -/
+def entryValue (look : Look) (p pol : Y) (l date : Int) (group param : String) : Except Err Y :=
+  match pol.get? (.s "scalar") with
+  | some sc =>
+    pure (match sc with
+      | .str "inf" => Y.pinf
+      | other => other)
+  | none => do
+    let base0 : Y := .dict ([Key.s "type", Key.s "progressionsfaktor"].filterMap fun k =>
+      (p.get? k).map fun v => (k, v))
+    let valueKeys := pol.keys.filter fun k => !notTransKeys.contains k
+    match pol.get? (.s "deviation_from") with
+    | some devY => do
+      let base1 ← devBase look base0 devY l date group param
+      valueKeys.foldlM (fun (cur : Y) k => do
+        let old ← sub cur k
+        let v ← sub pol k
+        let new ← transfer v old []
+        setItem cur k new) base1
+    | none =>
+      valueKeys.foldlM (fun (cur : Y) k => do
+        let v ← sub pol k
+        setItem cur k v) base0
+
+/-- `access_different_date` -/
+def accessStep (look : Look) (p : Y) (date : Int) (group param : String) (pk : Key)
+    (out : List (Key × Y)) : Except Err (List (Key × Y)) :=
+  match p.get? (.s "access_different_date") with
+  | none => pure out
+  | some (.str "vorjahr") => do
+    match ← look (subYear date) group param with
+    | some v => pure (kvSet out (.s (param ++ "_vorjahr")) v)
+    | none => pure out
+  | some (.str "jahresanfang") =>
+    if jan1 date = date then
+      match kvGet? out pk with
+      | some v => pure (kvSet out (.s (param ++ "_jahresanfang")) v)
+      | none => throw Err.keyError
+    else do
+      match ← look (jan1 date) group param with
+      | some v => pure (kvSet out (.s (param ++ "_jahresanfang")) v)
+      | none => pure out
+  | some _ => throw Err.valueError
+
+/-- the body of the loop over parameters, for the parameter `p = g[pk]` named `param` -/
+def paramBody (look : Look) (p : Y) (date : Int) (group param : String) (pk : Key)
+    (out : List (Key × Y)) : Except Err (List (Key × Y)) :=
+  match latest (policyDates p) date with
+  | none => futureStep look p date out pk
+  | some l => do
+    let pol ← sub p (.d l)
+    let v ← entryValue look p pol l date group param
+    accessStep look p date group param pk (kvSet out pk v)
+
+/-- one iteration of the loop over parameters -/
+def paramStep (look : Look) (g : Y) (date : Int) (group : String) (out : List (Key × Y))
+    (pk : Key) : Except Err (List (Key × Y)) := do
+  let param ← match pk with | .s n => pure n | _ => throw Err.typeError
+  let p ← sub g pk
+  paramBody look p date group param pk out
+
+/-- after the loop: `datum` and the rounding parameters -/
+def finishGroup (copied : List String) (g : Y) (date : Int) (out : List (Key × Y)) :
+    Except Err (List (Key × Y)) :=
+  let out := kvSet out (.s "datum") (.date date)
+  match g.get? (.s "rounding") with
+  | some r => do
+    let rr ← loadRounding copied date r
+    pure (kvSet out (.s "rounding") rr)
+  | none => pure out
 
 /-- `_load_parameter_group_from_yaml(date, group, parameters)`; `fuel` bounds the depth of
 the recursive calls (`previous`, cross-file deviation, `vorjahr`, `jahresanfang`). -/
@@ -78,87 +194,11 @@ def loadGroup (copied : List String) (raw : Raw) :
     let params : List Key := match parameters with
       | some ps => ps.map Key.s
       | none => g.keys.filter (· ≠ .s "rounding")
-    let out ← params.foldlM (fun (out : List (Key × Y)) pk => do
-      let param ← match pk with | .s n => pure n | _ => throw Err.typeError
-      let p ← sub g pk
-      let dates := policyDates p
-      match latest dates date with
-      | none =>
-        match minOf dates with
-        | none => throw Err.valueError
-        | some e => do
-          let future ← sub p (.d e)
-          match future.get? (.s "deviation_from") with
-          | some (.str dev) =>
-            match splitDev dev with
-            | some (g2, p2) => do
-              let tmp ← loadGroup copied raw fuel date g2 (some [p2])
-              match kvGet? tmp (.s p2) with
-              | some v => pure (kvSet out pk v)
-              | none => pure out
-            | none => pure out
-          | some _ => throw Err.typeError
-          | none => pure out
-      | some l => do
-        let pol ← sub p (.d l)
-        let out ←
-          match pol.get? (.s "scalar") with
-          | some sc =>
-            pure (kvSet out pk (match sc with
-              | .str "inf" => Y.pinf
-              | other => other))
-          | none => do
-            let base0 : Y := .dict ([Key.s "type", Key.s "progressionsfaktor"].filterMap fun k =>
-              (p.get? k).map fun v => (k, v))
-            let valueKeys := pol.keys.filter fun k => !notTransKeys.contains k
-            match pol.get? (.s "deviation_from") with
-            | some devY => do
-              let base1 ← match devY with
-                | .str dev =>
-                  if dev = "previous" then do
-                    let prev ← loadGroup copied raw fuel (l - 1) group (some [param])
-                    match kvGet? prev pk with | some v => pure v | none => throw Err.keyError
-                  else match splitDev dev with
-                    | some (g2, p2) => do
-                      let other ← loadGroup copied raw fuel date g2 (some [p2])
-                      match kvGet? other (.s p2) with | some v => pure v | none => throw Err.keyError
-                    | none => pure base0
-                | _ => throw Err.typeError
-              let merged ← valueKeys.foldlM (fun (cur : Y) k => do
-                let old ← sub cur k
-                let v ← sub pol k
-                let new ← transfer v old []
-                setItem cur k new) base1
-              pure (kvSet out pk merged)
-            | none => do
-              let filled ← valueKeys.foldlM (fun (cur : Y) k => do
-                let v ← sub pol k
-                setItem cur k v) base0
-              pure (kvSet out pk filled)
-        match p.get? (.s "access_different_date") with
-        | none => pure out
-        | some (.str "vorjahr") => do
-          let tmp ← loadGroup copied raw fuel (subYear date) group (some [param])
-          match kvGet? tmp pk with
-          | some v => pure (kvSet out (.s (param ++ "_vorjahr")) v)
-          | none => pure out
-        | some (.str "jahresanfang") =>
-          if jan1 date = date then
-            match kvGet? out pk with
-            | some v => pure (kvSet out (.s (param ++ "_jahresanfang")) v)
-            | none => throw Err.keyError
-          else do
-            let tmp ← loadGroup copied raw fuel (jan1 date) group (some [param])
-            match kvGet? tmp pk with
-            | some v => pure (kvSet out (.s (param ++ "_jahresanfang")) v)
-            | none => pure out
-        | some _ => throw Err.valueError) []
-    let out := kvSet out (.s "datum") (.date date)
-    match g.get? (.s "rounding") with
-    | some r => do
-      let rr ← loadRounding copied date r
-      pure (kvSet out (.s "rounding") rr)
-    | none => pure out
+    let look : Look := fun date' group' param' => do
+      let tmp ← loadGroup copied raw fuel date' group' (some [param'])
+      pure (kvGet? tmp (.s param'))
+    let out ← params.foldlM (paramStep look g date group) []
+    finishGroup copied g date out
 
 /-! ### piecewise parsing inside the environment -/
 
@@ -248,26 +288,28 @@ def getPath (y : Y) (path : List Key) : Except Err Y := path.foldlM sub y
 def numOf (y : Y) : Except Err Rat :=
   match ratOf y with | some q => pure q | none => throw Err.typeError
 
-/-- `set_up_policy_environment(date)`: parameters part. `groups` = `INTERNAL_PARAMS_GROUPS`. -/
-def env (copied : List String) (groups : List String) (raw : Raw) (fuel : Nat) (date : Int) :
-    Except Err Y := do
-  let loaded ← groups.mapM fun g => do
+/-- `set_up_policy_environment(date)`, first stage: load and parse every group -/
+def envLoad (copied : List String) (groups : List String) (raw : Raw) (fuel : Nat) (date : Int) :
+    Except Err (List (Key × Y)) :=
+  groups.mapM fun g => do
     let kvs ← loadGroup copied raw fuel date g none
     pure (Key.s g, Y.dict (← parseGroup kvs))
-  let params : Y := .dict loaded
-  let yr := year date
-  -- `_parse_kinderzuschl_max`
-  let params ← if yr < 2023 ∧ 2021 ≤ yr then do
-      let kz ← sub params (.s "kinderzuschl")
-      let ex ← sub kz (.s "existenzminimum")
-      let a ← numOf (← getPath ex [.s "regelsatz", .s "kinder"])
-      let b ← numOf (← getPath ex [.s "kosten_der_unterkunft", .s "kinder"])
-      let c ← numOf (← getPath ex [.s "heizkosten", .s "kinder"])
-      let kg ← numOf (← getPath params [.s "kindergeld", .s "kindergeld", .i 1])
-      let kz' ← setItem kz (.s "maximum") (.num ((a + b + c) / 12 - kg))
-      setItem params (.s "kinderzuschl") kz'
-    else pure params
-  -- `_parse_einführungsfaktor_vorsorgeaufw_alter_ab_2005`, `_parse_vorsorgepauschale_rentenv_anteil`
+
+/-- `_parse_kinderzuschl_max` -/
+def deriveKinderzuschl (yr : Int) (params : Y) : Except Err Y :=
+  if yr < 2023 ∧ 2021 ≤ yr then do
+    let kz ← sub params (.s "kinderzuschl")
+    let ex ← sub kz (.s "existenzminimum")
+    let a ← numOf (← getPath ex [.s "regelsatz", .s "kinder"])
+    let b ← numOf (← getPath ex [.s "kosten_der_unterkunft", .s "kinder"])
+    let c ← numOf (← getPath ex [.s "heizkosten", .s "kinder"])
+    let kg ← numOf (← getPath params [.s "kindergeld", .s "kindergeld", .i 1])
+    let kz' ← setItem kz (.s "maximum") (.num ((a + b + c) / 12 - kg))
+    setItem params (.s "kinderzuschl") kz'
+  else pure params
+
+/-- `_parse_einführungsfaktor_vorsorgeaufw_alter_ab_2005`, `_parse_vorsorgepauschale_rentenv_anteil` -/
+def deriveEinkSt (yr : Int) (params : Y) : Except Err Y :=
   if 2005 ≤ yr then do
     let ab ← sub params (.s "eink_st_abzuege")
     let s1 ← scheduleOf (← sub ab (.s "einführungsfaktor"))
@@ -277,6 +319,17 @@ def env (copied : List String) (groups : List String) (raw : Raw) (fuel : Nat) (
     let ab ← setItem ab (.s "vorsorgepauschale_rentenv_anteil") (.num (Piecewise.eval s2 (yr : Rat)))
     setItem params (.s "eink_st_abzuege") ab
   else pure params
+
+/-- `set_up_policy_environment(date)`, second stage: the three year-derived values -/
+def envDerive (yr : Int) (loaded : List (Key × Y)) : Except Err Y := do
+  let params ← deriveKinderzuschl yr (.dict loaded)
+  deriveEinkSt yr params
+
+/-- `set_up_policy_environment(date)`: parameters part. `groups` = `INTERNAL_PARAMS_GROUPS`. -/
+def env (copied : List String) (groups : List String) (raw : Raw) (fuel : Nat) (date : Int) :
+    Except Err Y := do
+  let loaded ← envLoad copied groups raw fuel date
+  envDerive (year date) loaded
 
 /-! ### time-dependent functions -/
 
